@@ -81,9 +81,32 @@ def shutdown(h):
         pass
 
 
-def pmap(fn, items, nproc=None, chunk=1):
+class _Guard:
+    """Picklable wrapper: run fn(item) under a wall-clock alarm so that a hung execution becomes an exception."""
+
+    def __init__(self, fn, seconds):
+        self.fn = fn
+        self.seconds = seconds
+
+    def __call__(self, item):
+        import signal
+
+        def onalarm(signum, frame):
+            raise TimeoutError('execution exceeded %ds wall clock' % self.seconds)
+        old = signal.signal(signal.SIGALRM, onalarm)
+        signal.alarm(self.seconds)
+        try:
+            return self.fn(item)
+        finally:
+            signal.alarm(0)
+            signal.signal(signal.SIGALRM, old)
+
+
+def pmap(fn, items, nproc=None, chunk=1, item_timeout=120):
     """Parallel map with forked workers (each boots its own machines)."""
     items = list(items)
+    if item_timeout:
+        fn = _Guard(fn, item_timeout)
     nproc = min(nproc or int(os.environ.get('VERIF_NPROC', '16')), max(1, len(items)))
     if nproc <= 1:
         return [fn(x) for x in items]
